@@ -473,9 +473,13 @@ func checkC09(w *World, r *Report) {
 		for _, b := range a.eIsLocal.Blocks {
 			for _, in := range b.Instrs {
 				if ret, ok := in.(*ssa.Return); ok {
-					p := w.pathOf(ret.Results[0])
-					if p != "K:false" && p != "(P0.address==P1.Address)" && p != "(P1.Address==P0.address)" {
-						okL = false
+					var leaves []ssa.Value
+					phiLeaves(ret.Results[0], map[ssa.Value]bool{}, &leaves)
+					for _, l := range leaves {
+						p := w.pathOf(l)
+						if p != "K:false" && p != "(P0.address==P1.Address)" && p != "(P1.Address==P0.address)" {
+							okL = false
+						}
 					}
 				}
 			}
@@ -548,6 +552,15 @@ func intersectEdges(g *FG, a, b []Edge) []Edge {
 
 // checkForwardLoop: inside the range over the subscriber set there is exactly one Forward per iteration.
 func checkForwardLoop(w *World, r *Report, es *ssa.Function, a *sendAnchors, rule string) {
+	// the forwarding loop may live in a private helper of the event stream
+	if h := w.holder(es, func(f *ssa.Function) bool { return len(w.callsIn(f, EvCall("Forward", a.cForward))) > 0 }); h != nil && h != es {
+		// the helper is reached from Receive on every path that is neither a subscription nor an unsubscription
+		eg := w.FG(es)
+		H := w.Nodes(eg, EvCall("helper", h), true)
+		if anyOf(H) {
+			es = h
+		}
+	}
 	g := w.FG(es)
 	key := fname(es) + ":forward-each-subscriber"
 	what := "the default case forwards the event once to every subscriber (no early exit)"
@@ -1265,12 +1278,14 @@ func checkC12(w *World, r *Report) {
 	}
 	subE, unsubE := caseEdge("eventSub"), caseEdge("eventUnsub")
 	var insKey, delKey, insVal string
+	var insKeyV ssa.Value
 	var insN, delN []int
 	for n, in := range g.ins {
 		switch x := in.(type) {
 		case *ssa.MapUpdate:
 			if strings.HasSuffix(w.pathOf(x.Map), "."+subsField.Name()) {
 				insKey, insVal = w.pathOf(x.Key), w.pathOf(x.Value)
+				insKeyV = x.Key
 				insN = append(insN, n)
 			}
 		case *ssa.Call:
@@ -1319,15 +1334,30 @@ func checkC12(w *World, r *Report) {
 	// same key shape on both sides, using both address and id of msg.pid
 	norm := func(k, typ string) string { return strings.ReplaceAll(k, "assert<actor."+typ+">", "assert<MSG>") }
 	sameKey := insKey != "" && norm(insKey, "eventSub") == norm(delKey, "eventUnsub")
-	usesBoth := strings.HasPrefix(insKey, "set:") || ((strings.Contains(insKey, "GetAddress(") || strings.Contains(insKey, ".Address")) && (strings.Contains(insKey, "GetID(") || strings.Contains(insKey, ".ID")))
+	bothIn := func(p string) bool {
+		return (strings.Contains(p, "GetAddress(") || strings.Contains(p, ".Address")) && (strings.Contains(p, "GetID(") || strings.Contains(p, ".ID"))
+	}
+	usesBoth := strings.HasPrefix(insKey, "set:") || bothIn(insKey)
+	if !usesBoth && insKeyV != nil {
+		// the key is built by a private helper: look at what the helper returns
+		if c, isC := stripConv(insKeyV).(*ssa.Call); isC && c.Call.StaticCallee() != nil && w.inMod[c.Call.StaticCallee()] && len(c.Call.Args) == 1 && strings.HasSuffix(w.pathOf(c.Call.Args[0]), "#0.pid") {
+			usesBoth = true
+			for _, b := range c.Call.StaticCallee().Blocks {
+				for _, in := range b.Instrs {
+					if ret, isR := in.(*ssa.Return); isR && !bothIn(strings.ReplaceAll(w.pathOf(ret.Results[0]), "(P0)", "(P0.)")) && !bothIn(w.pathOf(ret.Results[0])) {
+						usesBoth = false
+					}
+				}
+			}
+		}
+	}
 	r.Check(sameKey && usesBoth, "C12.R2", fname(es)+":same-key", "subscribe and unsubscribe build the key the same way, from both the address and the id of msg.pid", w.fnPos(es),
 		fmt.Sprintf("insert key %s vs delete key %s", insKey, delKey))
 	checkForwardLoop(w, r, es, a, "C12.R2")
 	// forward only on the default edge (neither sub nor unsub)
 	{
 		ok := true
-		for _, ci := range w.callsIn(es, EvCall("Forward", a.cForward)) {
-			n := g.idx[ci.(ssa.Instruction)]
+		for _, n := range members(w.Nodes(g, EvCall("Forward", a.cForward), false)) {
 			if reachFromEdges(g, subE, nil)[n] || reachFromEdges(g, unsubE, nil)[n] {
 				ok = false
 			}
